@@ -167,6 +167,60 @@ def run(ck: Check) -> None:
             ck.violation("the same call gave different verdicts at different points of a history", {"request": line[:1200], "first": seen[line][:100], "later": i[:100]}, "history-dependent-verdict")
         seen.setdefault(line, i)
 
+    # the caller edits an object in place between two calls (same object identity, other content) and edits it back: each call is judged on what the
+    # object holds at that moment — nothing remembered about the object from the previous call may be reused
+    k_ = [gen.key(1), gen.key(2)]
+    for i in range(ck.n(60, 20)):
+        gpg = bool(i % 2)
+        kind = i % 3
+        if kind == 0:
+            env = gen.sign_env(gen.envelope({"name": "p", "n": [1, 2], "v": {"a": 1}}), k_, gpg, rng)
+            call = lambda e=env, g=gpg: direct(impl, "vsignable", [e, [k.hex for k in k_], 2, g])
+        elif kind == 1:
+            t_ = gen.envelope(gen.delegating_md("root", {"key_mgr": gen.delegation(k_, 2)}))
+            env = gen.sign_env(gen.envelope(gen.delegating_md("key_mgr", {}, version=4)), k_, gpg, rng)
+            call = lambda e=env, g=gpg, t=t_: direct(impl, "vdeleg", ["key_mgr", e, t, g])
+        else:
+            t_ = gen.envelope(gen.root_md(k_, 2, [gen.key(9)], 1, version=4))
+            env = gen.sign_env(gen.envelope(gen.root_md(k_, 2, [gen.key(9)], 1, version=5)), k_, True, rng)
+            call = lambda e=env, t=t_: direct(impl, "vroot", [t, e])
+        signed = env["signed"]
+        first = call()
+        # (1) payload edited in place: the signatures no longer cover it
+        edit = rng.choice(["add", "change", "nested"])
+        if edit == "add":
+            signed["zz_added"] = 1
+        elif edit == "change":
+            saved = signed.get("expiration", signed.get("name"))
+            signed["expiration" if "expiration" in signed else "name"] = "2031-01-01T00:00:00Z" if "expiration" in signed else "q"
+        else:
+            tgt = signed["delegations"] if "delegations" in signed else signed["v"]
+            tgt["zz_nested"] = {"pubkeys": [], "threshold": 1}
+        second = call()
+        # (2) and edited back
+        if edit == "add":
+            del signed["zz_added"]
+        elif edit == "change":
+            signed["expiration" if "expiration" in signed else "name"] = saved
+        else:
+            del tgt["zz_nested"]
+        third = call()
+        # (3) signatures removed in place, then restored
+        ents = dict(env["signatures"])
+        env["signatures"].clear()
+        fourth = call()
+        env["signatures"].update(ents)
+        fifth = call()
+        ck.evaluations += 5
+        ck.oracle_checks += 1
+        ck.count("in-place-edit:" + ["vsignable", "vdeleg", "vroot"][kind] + ":" + edit)
+        if not (first == "OK" and second == "E SignatureError" and third == "OK" and fourth == "E SignatureError" and fifth == "OK"):
+            ck.violation("a verdict did not follow an in-place edit of the object between two calls (something about the object was remembered from the earlier call)",
+                         {"verifier": ["vsignable", "vdeleg", "vroot"][kind], "edit": edit, "mode": "gpg" if gpg or kind == 2 else "raw",
+                          "verdicts": {"signed": first, "payload edited in place": second, "edited back": third, "signatures removed in place": fourth, "restored": fifth},
+                          "expected": ["OK", "E SignatureError", "OK", "E SignatureError", "OK"]}, f"in-place-edit:{['vsignable', 'vdeleg', 'vroot'][kind]}:{edit}")
+            break
+
     # wrap-then-mutate, both directions
     for _ in range(ck.n(80, 25)):
         obj = gen.rand_json(rng, 4, [25])
@@ -257,7 +311,17 @@ def run(ck: Check) -> None:
     vcalls = [c for c in tcalls if c[0] in ("vsignable", "vdeleg", "vroot")]
     okc = [c for c, sq in zip(tcalls, seq) if sq == "OK" and c[0] in ("vsignable", "vdeleg", "vroot")]
     badc = [c for c, sq in zip(tcalls, seq) if sq.startswith("E SignatureError")]
-    pairs = []
+    # two threads verifying the very same objects at once (the commonest way metadata is shared): one accepted call per verifier, built on purpose
+    kk_ = [gen.key(1), gen.key(2)]
+    d_t = gen.envelope(gen.delegating_md("root", {"key_mgr": gen.delegation(kk_, 2)}))
+    d_u = gen.sign_env(gen.envelope(gen.delegating_md("key_mgr", {"pkg_mgr": gen.delegation([gen.key(3)], 1)}, version=4)), kk_, False)
+    d_u["signatures"]["junk"] = {"signature": "zz"}
+    r_t = gen.envelope(gen.root_md(kk_, 2, [gen.key(9)], 1, version=4))
+    r_u = gen.sign_env(gen.envelope(gen.root_md(kk_, 2, [gen.key(9)], 1, version=5)), kk_, True, rng)
+    s_e = gen.sign_env(gen.envelope({"a": [1, 2]}), kk_, False)
+    s_e["signatures"][gen.key(5).hex] = gen.raw_entry(gen.key(5), b"other")
+    directed = [("vdeleg", ["key_mgr", d_u, d_t, False]), ("vroot", [r_t, r_u]), ("vsignable", [s_e, [k.hex for k in kk_], 2, False])]
+    pairs = [(x, x) for x in directed] + [(x, x) for x in okc[:2]]
     for x in (okc[:3] + badc[:3]):
         for y in (badc[:2] + okc[:2]):
             if x is not y:
